@@ -421,12 +421,7 @@ fn wr(f: &Fields) -> String {
 
 fn fault_of(f: &Fields, io: &Shared) {
     if let Some(at) = opt_num::<usize>(f, "failat") {
-        let kind = match get(f, "fkind") {
-            "intr" => FaultKind::Interrupted,
-            "once" => FaultKind::Once,
-            k if k.starts_with("short:") => FaultKind::Short(k[6..].parse().unwrap()),
-            _ => FaultKind::Permanent,
-        };
+        let kind = crate::util::fault_kind(get(f, "fkind"));
         io.fail(at, kind, get(f, "fonly"));
     }
 }
